@@ -278,11 +278,35 @@ class LibModel:
                 return [(Dct(()), st)]
             v = args[0]
             if isinstance(v, Lst) and not v.more and all(isinstance(x, Tup) and len(x.items) == 2 for x in v.items):
-                return [(Dct(tuple((x.items[0], x.items[1]) for x in v.items)), st)]
+                dd: dict = {}
+                for x in v.items:
+                    dd[x.items[0]] = x.items[1]  # later duplicates of a key win, position of the first is kept
+                return [(Dct(tuple(dd.items())), st)]
             return [(app("dict", v), st)]
         if name == "sorted":
-            return [(app("sorted", args[0]) if not isinstance(args[0], Lst) or args[0].items else args[0], st)]
-        if name in ("iter", "next", "range"):
+            v = args[0]
+            if isinstance(v, Dct):
+                v = Lst(tuple(k for k, _ in v.items), False)
+            if isinstance(v, Lst) and not v.more:
+                try:
+                    return [(Lst(tuple(sorted(v.items, key=_sort_key)), False), st)]
+                except TypeError:
+                    return [(app("sorted", v), st)]
+            return [(app("sorted", v), st)]
+        if name == "iter":
+            v = args[0]
+            if isinstance(v, Dct):
+                v = Lst(tuple(k for k, _ in v.items), False)
+            return [(v if isinstance(v, (Lst, Tup)) else app("iter", v), st)]
+        if name == "next":
+            v = args[0]
+            if isinstance(v, (Lst, Tup)) and not getattr(v, "more", False):
+                if v.items:
+                    return [(v.items[0], st)]
+                ex.append((ExcInfo("StopIteration", "lib", site, "next() on an empty iterator"), st))
+                return []
+            return [(app("next", v), st)]
+        if name == "range":
             return [(app(name, *args), st)]
         # ---- containers
         if name.startswith("Lst."):
@@ -338,6 +362,17 @@ class LibModel:
                 return [(Lst(tuple(Tup((k, v)) for k, v in d.items), False), st)]
             if m == "clear":
                 return [(None, st, Dct(()))]
+            if m == "pop":
+                k = args[0]
+                for kk, vv in d.items:
+                    if kk == k:
+                        return [(vv, st, Dct(tuple((a, b) for a, b in d.items if a != k)))]
+                if len(args) > 1:
+                    return [(args[1], st)]
+                ex.append((ExcInfo("KeyError", "lib", site, f"dict.pop of a missing key {k!r}"), st))
+                return []
+            if m in ("keys", "values"):
+                return [(Lst(tuple((k if m == "keys" else v) for k, v in d.items), False), st)]
             raise AnalysisError(f"unsupported dict method {m} at {site}")
         if name.startswith("FreeDict."):
             m = name[9:]
@@ -729,3 +764,9 @@ class LibModel:
 
 
 _NOPE = object()
+
+
+def _sort_key(x: Any) -> Any:
+    if isinstance(x, Tup):
+        return tuple(x.items)
+    return x
